@@ -10,3 +10,4 @@ func VerifC11PortL4()        { router.VerifC11PortL4() }
 func VerifC11PortSCMPInfo()  { router.VerifC11PortSCMPInfo() }
 func VerifC11PortSCMPError() { router.VerifC11PortSCMPError() }
 func VerifC11PortVacuity()   { router.VerifC11PortVacuity() }
+func VerifC11StepExt()       { router.VerifC11StepExt() }
